@@ -41,6 +41,15 @@ CHECKS['C13'] = ('runtime oracle: great-arc reference in long double / __float12
 CHECKS['C18'] = ('runtime oracle: loop-based reference implementations; complete enumeration of 8/16-bit domains (values x multiples/shift counts/ranges), all 2^24..2^32 interleave inputs, lattice + random for 32/64-bit',
          'Power-of-two family, multiples (integer and floating), findNSB, integer log2/sqrt/pow/factorial/mod, mask, fill, rotate, interleave/deinterleave in scalar, vector and vector-scalar forms for i8..u64: every result compared with a loop written from the documentation.',
          TRUST, 'DESIGN.md 7/C18')
+CHECKS['C02'] = ('runtime oracle: triple-loop column-major references in exact integer arithmetic (tag matrices of distinct primes, transposition probes, small integers) and 2K*u*sum|a||b| bounds for general floats; pure and SIMD-aligned builds',
+         'All 27 matrix products, 9+9 matrix-vector products, 81 shape conversions, element/column/scalar constructors, element-wise and compound operators with matrices and scalars, ++/--, ==/!=, transpose, outerProduct, matrixCompMult, gtc row/column access, gtx diagonal/rowMajor/colMajor/matrixCross for 9 shapes x 3 qualifiers x float/double/int/uint (sized ints in the thorough tier).',
+         TRUST, 'DESIGN.md 7/C02')
+CHECKS['C06'] = ('runtime oracle: exact evaluation of the documented pack/unpack formulas (double / __float128), complete enumeration of every word of every format up to 20 bits (2^32 words and 2^32 floats in the thorough tier), own layout table',
+         'Every pack/unpack pair of glm/packing.hpp and glm/gtc/packing.hpp: canonical-code round trip, unpack-pack-unpack stability, nearest-code quantisation within half a step plus the derived float slack, clamping, monotonicity along increasing sweeps and bit layout (component 0 in the least significant bits).',
+         TRUST + ' Half conversion accuracy itself is C07.', 'DESIGN.md 7/C06')
+CHECKS['C10'] = ('runtime oracle: MPFR 512-bit Leibniz determinant / cofactor inverse from the exact inputs, per-entry formula bounds, exact comparison on small-integer unimodular matrices; pure and SIMD-aligned builds',
+         'determinant (multiplicative, transpose-invariant), inverse entries and both residual products, inverseTranspose, affineInverse, operator/ forms, adjugate, diagonal builders, QR/RQ, matrix_query on matrices conditioned by construction up to the stated kappa limits; residual/(u*kappa) is measured and reported.',
+         TRUST + ' The verdict threshold is the rounding bound of the cofactor scheme; the growth of the residual with kappa^(n-1) for spectra with several small singular values is reported as a measurement (DESIGN 7/C10), not judged.', 'DESIGN.md 7/C10')
 REASONS = {}
 
 checks = []
